@@ -94,7 +94,13 @@ pub fn emit(e: &mut Emitter, seed: u64, thorough: bool) {
             let native = verdict(data_for_native, p);
             let outer_v = outer_verdict(&outer, p, &data_for_native.verifier_only);
             if coarse(&native) != coarse(&outer_v) {
-                e.oracle_failures.push(format!("in-circuit verifier says {outer_v}, native verifier says {native}: {what}"));
+                if what.starts_with("surgery") && native == "REJECT:shape" && outer_v == "ACCEPT" {
+                    // the assignment routines zip over the targets: surplus elements are dropped, a short
+                    // final polynomial is zero-padded (same routines as F-C11-1)
+                    e.oracle_failures.push(format!("F-C06-1 (mis-shaped inner proof assigned by dropping or padding elements): in-circuit verifier says ACCEPT, native verifier says REJECT:shape: {what}"));
+                } else {
+                    e.oracle_failures.push(format!("in-circuit verifier says {outer_v}, native verifier says {native}: {what}"));
+                }
             }
             if outer_v == "ACCEPT-BUT-PIS-DIFFER" { e.oracle_failures.push(format!("outer proof does not re-expose the inner public inputs: {what}")); }
             e.count(&format!("variant class: {} -> native {} / outer {}", what.split(':').next().unwrap(), coarse(&native), coarse(&outer_v)));
@@ -118,6 +124,25 @@ pub fn emit(e: &mut Emitter, seed: u64, thorough: bool) {
                 *cell = Value::from((old + 1 + r.below(P - 1)) % P);
                 let Ok(p2) = serde_json::from_value::<Pwpi>(j) else { continue };
                 judge(e, &format!("tampered: {cls}"), &p2, &inner);
+            }
+        }
+        // list surgery on every class of array (C03's surgery classes): drop last / duplicate last
+        {
+            let mut arr_by_class: std::collections::BTreeMap<String, Vec<Vec<String>>> = Default::default();
+            let (mut l2, mut a2) = (vec![], vec![]);
+            walk(&json, &mut vec![], &mut l2, &mut a2);
+            for a in a2 { arr_by_class.entry(crate::c03::class_of_arr(&a)).or_default().push(a); }
+            for (cls, als) in &arr_by_class {
+                for surgery in 0..2 {
+                    if !thorough && r.below(2) == 0 { continue; }
+                    let path = r.pick(als).clone();
+                    let mut j = json.clone();
+                    let Value::Array(xs) = at(&mut j, &path) else { continue };
+                    if xs.is_empty() { continue; }
+                    if surgery == 0 { xs.pop(); } else { let l = xs.last().unwrap().clone(); xs.push(l); }
+                    let Ok(p2) = serde_json::from_value::<Pwpi>(j) else { continue };
+                    judge(e, &format!("surgery{surgery}: {cls}"), &p2, &inner);
+                }
             }
         }
         // wrong number of public inputs (surplus / missing), proof itself untouched
